@@ -5,7 +5,7 @@
        flag_arr[<integer>] = QartodFlags.<F>
    of a test function into a `list sstep` (Generated.skel_<function>).  `run_steps` below gives that list
    its numpy meaning, relative to an environment that binds the names occurring in the expressions
-   (arrays such as inp / diff / roc / d, scalars such as thresholds and span ends).  SkelProofs.v proves,
+   (arrays such as inp / diff / roc / d, scalars such as thresholds and span ends).  SkelP_*.v proves,
    per test, that running the GENERATED skeleton in the environment of the hand-written model yields
    exactly the model's flags — so an edit of a comparison operator, of the order of the assignments,
    of a flag constant or of a guard in the source breaks a proof obligation directly. *)
@@ -19,6 +19,7 @@ Inductive sexp :=
   | SAttr (e : sexp) (field : string)      (* e.field : inp.mask, sspan.minv, lon.size *)
   | SNum (q : Q)
   | SNone
+  | SStr (s : string)                      (* a string literal: method == "average" *)
   | SCmp (op : string) (a b : sexp)        (* "<" "<=" ">" ">=" "==" "!=" "is" "isnot" *)
   | SBin (op : string) (a b : sexp)        (* "|" "&" "and" "or" *)
   | SInv (e : sexp)                        (* ~e / not e *)
@@ -34,6 +35,7 @@ Inductive sstep :=
 Record env := {
   e_arr : string -> option (list obs);     (* the arrays in scope (None: not an array name) *)
   e_num : string -> option (option Q);     (* the scalars in scope: Some None = Python None *)
+  e_str : string -> option string;         (* the string-valued parameters in scope *)
   e_size : nat                             (* common length of the arrays *)
 }.
 
@@ -111,6 +113,9 @@ Fixpoint eval_g (en : env) (e : sexp) : bool :=
       else match a, b with
            | SAttr (SName _) f, SNum q =>
                if String.eqb f "size" then cmp_q op (inject_Z (Z.of_nat (e_size en))) q else false
+           | SName x, SStr v =>                                          (* method == "average" *)
+               if String.eqb op "==" then match e_str en x with Some w => String.eqb w v | None => false end
+               else false
            | _, _ => false
            end
   | SBin op a b =>
